@@ -90,6 +90,20 @@ def check_roundtrip(np, layout, spec, version):
         bad.append(('page-id-and-size', '%r %r' % (q.id, q.page_size)))
     if [r.id for r in q.regions] != want_ids:
         bad.append(('regions-written-in-reading-order', 'document lists regions %r, expected %r' % ([r.id for r in q.regions], want_ids)))
+    # the reading order itself survives: the re-imported indices rank the listed regions as the original ones did
+    o0, o1 = spec.get('order'), q.reading_order
+    if o0:
+        if not o1 or set(o1) != set(o0):
+            bad.append(('reading-order-preserved', 'reading order %r came back as %r' % (o0, o1)))
+        else:
+            for a_ in o0:
+                for b_ in o0:
+                    if (o0[a_] < o0[b_]) != (o1[a_] < o1[b_]):
+                        bad.append(('reading-order-preserved', 'reading order %r came back as %r (%r / %r ranked differently)' % (o0, o1, a_, b_)))
+                        break
+                else:
+                    continue
+                break
     bysnap = {s[0]: s for s in snap}
     for r in q.regions:
         s = bysnap.get(r.id)
@@ -143,6 +157,10 @@ def specs(thorough):
                 # indices need not be 0-based or contiguous
                 orders.append({i: 10 * (k + 1) for k, i in enumerate(reversed(ids[:r]))})
             if n >= 2:
+                # the dict is filled in an order that is not the reading order (as when it is filled while iterating over regions)
+                orders.append({ids[0]: 2, ids[1]: 0})
+                if n == 3:
+                    orders.append({ids[0]: 2, ids[1]: 0, ids[2]: 1})
                 orders.append({ids[-1]: 7})
                 orders.append({ids[0]: 5, ids[1]: 5})          # equal indices: stable
                 orders.append({ids[-1]: 0, 'ghost': 1})       # reference to a region that does not exist
